@@ -386,7 +386,7 @@ func init() {
 		ID: "C18", Level: "exploration",
 		Rule: "each case is a history of <=12 steps (thorough <=40) in a FRESH process (package-level state starts from the library defaults): construct a writer or reader with a subset of its options (the first 64+16 cases force every subset; nil arguments included; driver-option values are in half of the cases ONE option value handed to several constructors, optionally followed by a second driver option), " +
 			"make a per-call WriteStreamWithOptions / ParseStreamWithOptions (also with per-call driver, store and retrieve options), or configure a live instance through its exported Options (format, indentation, driver options, store/retrieve options). After EVERY step the monitor compares every live instance with its own model (documented defaults: no format, indent 4, NoClobber false, no format options) - Options fields, " +
-			"the format and indentation WriteStream actually produces, the options a recording storage backend receives from Store/Retrieve - and a constructor without options is checked against the documented defaults. Per-call options must be used for that call and be gone for the next default call. " +
+			"the format and indentation WriteStream actually produces, the options a recording storage backend receives from Store/Retrieve - and a constructor without options is checked against the documented defaults. Per-call options must be used for that call and be gone for the next default call, also when the call fails (wrong format for the data; a format no driver is registered for). " +
 			"distinct = hash of the history; non-trivial = >=2 live instances with different configurations.",
 		Assumptions: []string{"what an absent field of a per-call Options falls back to is not specified by the property and not judged", "CycloneDX rendering ignores the indentation option, so indentation is observed on SPDX output only"},
 		NCases: func(tier string) int {
@@ -717,6 +717,24 @@ func c18Case(c *core.C) {
 			// a per-call format that does not fit the data must fail for this call and be gone for the next default call
 			_, err = m.r.ParseStreamWithOptions(bytes.NewReader(spdxSample), &reader.Options{Format: formats.CDX15JSON, UnserializeOptions: &native.UnserializeOptions{}})
 			_ = err
+			// per-call calls that fail before any driver runs (no driver is registered for the format they name), with
+			// a complete option set of their own: the instance must come out of them as it went in
+			noDriver := gen.Pick(r, []formats.Format{formats.SPDX22JSON, formats.SPDX23TV, "application/x-verif-no-such-format"})
+			bad := &reader.Options{Format: noDriver, UnserializeOptions: &native.UnserializeOptions{}, RetrieveOptions: &storage.RetrieveOptions{BackendOptions: "failed-call"}}
+			bad.SetFormatOptions(gen.Pick(r, c18Keys), "failed-call")
+			trace = append(trace, fmt.Sprintf("%s.ParseStreamWithOptions(format %s, for which no driver is registered)", m.name, noDriver))
+			if _, err = m.r.ParseStreamWithOptions(bytes.NewReader(spdxSample), bad); err != nil {
+				c.Cover("per-call-parse-failing-at-driver-lookup")
+			}
+			if len(ws) > 0 {
+				wm := ws[r.Intn(len(ws))]
+				badW := &writer.Options{Format: "application/x-verif-no-such-format", RenderOptions: &native.RenderOptions{Indent: 9}, SerializeOptions: &native.SerializeOptions{}, StoreOptions: &storage.StoreOptions{NoClobber: true, BackendOptions: "failed-call"}}
+				trace = append(trace, fmt.Sprintf("%s.WriteStreamWithOptions(a format for which no driver is registered)", wm.name))
+				var sink bytes.Buffer
+				if werr := wm.w.WriteStreamWithOptions(c18Doc(), nopWC{&sink}, badW); werr != nil {
+					c.Cover("per-call-write-failing-at-driver-lookup")
+				}
+			}
 		}
 		if !checkAll() {
 			return
